@@ -13,7 +13,7 @@ YUV = r'''
         %(assume)s
         let c = cfg(%(bd)d, %(full)s, MC_STD[%(mi)d]);
         let mid: %(T)s = %(mid)d;
-        let yuv = Yuv::new(Frame { planes: [Plane::from_slice(&[in_y], 1), Plane::from_slice(&[mid], 1), Plane::from_slice(&[mid], 1)] }, c).unwrap();
+        let yuv = %(ctor)s(Frame { planes: [Plane::from_slice(&[in_y], 1), Plane::from_slice(&[mid], 1), Plane::from_slice(&[mid], 1)] }, c)%(unwrap)s;
         let o = crate::Rgb::try_from(&yuv).unwrap().data()[0];
         let mx = o[0].max(o[1]).max(o[2]);
         let mn = o[0].min(o[1]).min(o[2]);
@@ -130,6 +130,8 @@ def replay_f(ctx, spec, f):
 
 def plan(tier, seed):
     p = Plan()
+    import os
+    p.modules.append(("src/yuv.rs", open(os.path.join(os.path.dirname(__file__), "..", "harness", "yuv_unchecked.rs")).read()))
     thorough = tier == "thorough"
     hs = []
     # (a) YUV neutral axis: every luma code, chroma = 2^(n-1)
@@ -147,7 +149,8 @@ def plan(tier, seed):
         maxv = (1 << bd) - 1
         txt += YUV % dict(name=name, T=T, bd=bd, full="true" if full else "false", mi=mi, mid=1 << (bd - 1),
                           black=0 if full else 16 * k, white=maxv if full else 235 * k,
-                          assume=("kani::assume(in_y <= %d);" % maxv) if (T == "u16" and bd < 16) else "")
+                          assume=("kani::assume(in_y <= %d);" % maxv) if (T == "u16" and bd < 16) else "",
+                          ctor="crate::yuv::verif_yuv_unchecked" if (T == "u16" and bd < 16) else "Yuv::new", unwrap="" if (T == "u16" and bd < 16) else ".unwrap()")
         hs.append(dict(name=name, family="yuv-neutral", timeout=900, mem_gb=10, replay=replay_yuv, inst=(T, bd, full, mi),
                        obligation="%s %d-bit %s %s: chroma code 2^(n-1) decodes to R=G=B (spread<=5e-7), black code -> exactly 0, white code -> 1 within 1e-6" % (T, bd, "full" if full else "limited", Y.MC_NAME[Y.MC_STD[mi]]),
                        sym="luma code: every value in [0,2^%d)" % bd, covers=["white explored", "mid grey explored"]))
